@@ -3,6 +3,7 @@
      A <bools01> <ihf> <s1..s8> <lvl> <keepS01> <n> item*n     item = <vk> <val> <css> <media> <ty> <flags4> <conv>
          vk: n = None, s = str, t/f = truthy/falsy object (css/media: optional strings)
          -> C | <chunks joined by ';'>|<value()>
+     G  same arguments as A                      -> C | <ws_prefs>|<item guards>|<tagged self.out>
      S <bools01> <ihf> <s1..s8> <n> rule*n       -> C | <text>
      P d|m  -> the preset as  <bools01> <ihf> <s1..s8>                                                   *)
 open Outmodel_model
@@ -91,6 +92,21 @@ let handle line =
     (match run p lvl items with
      | None -> "C"
      | Some r -> String.concat ";" (List.map str_out (out_list r)) ^ "|" ^ str_out (value r [] None keeps))
+  | "G" ->
+    (* guards + tagged list:  <ws_prefs 0/1>|<per item: s = writes nothing or raises, v<leaves_sep><keeps_sep>>|<tag or ->:<text> ;... *)
+    let p = prefs_in () in
+    let lvl = nat_of_int (int_of_string (next ())) in
+    let _ = next () in
+    let n = int_of_string (next ()) in
+    let items = many n item_in in
+    let b x = if x then "1" else "0" in
+    let g = String.concat ";" (List.map (fun it -> match item_guard p it with
+        | None -> "s" | Some (l, k) -> "v" ^ b l ^ b k) items) in
+    let rec int_of_nat = function O -> 0 | S n -> 1 + int_of_nat n in
+    (match run p lvl items with
+     | None -> "C"
+     | Some r -> b (ws_prefs p) ^ "|" ^ g ^ "|" ^ String.concat ";" (List.map (fun (tg, t) ->
+         (match tg with None -> "-" | Some i -> string_of_int (int_of_nat i)) ^ ":" ^ str_out t) (List.rev r)))
   | "S" ->
     let p = prefs_in () in
     let n = int_of_string (next ()) in
